@@ -1897,10 +1897,19 @@ class Table(Vector):
 		
 		# --- Partition key columns (one per unique group) ---
 		# Pre-bind: this is fast because group_items holds (key, rows)
+		# (a key keeps its stored name: the names of all keys are taken before an unnamed key is called
+		# 'key' or a repeated name is numbered, so neither can push a real name aside)
+		used_names.update(col._name for col in over if col._name is not None)
+		kept_names = set()
 		for idx, col in enumerate(over):
 			values = [key[idx] for key, _ in group_items]
-			# (an unnamed key gets a name; '' is a name like any other)
-			result_cols.append(Vector(values, name=uniquify(col._name if col._name is not None else "key")))
+			if col._name is not None and col._name not in kept_names:
+				kept_names.add(col._name)
+				key_name = col._name
+			else:
+				# (an unnamed key gets a name; '' is a name like any other)
+				key_name = uniquify(col._name if col._name is not None else "key")
+			result_cols.append(Vector(values, name=key_name))
 		
 		# ------------------------------------------------------------------
 		# 6. Column-major helper: aggregate one column for all groups
@@ -2150,11 +2159,19 @@ class Table(Vector):
 		# 5. Start with partition key columns (copy directly)
 		# ----------------------------------------------------------------------
 		result_cols = []
+		# (a key keeps its stored name: the names of all keys are taken before an unnamed key is called
+		# 'key' or a repeated name is numbered, so neither can push a real name aside)
+		used.update(col._name for col in over if col._name is not None)
+		kept_names = set()
 		for col in over:
-			# (the key column itself, unchanged: same elements, same dtype; '' is a name like any other)
-			result_cols.append(
-				Vector(list(col), dtype=col._dtype, name=uniquify(col._name if col._name is not None else "key"))
-			)
+			if col._name is not None and col._name not in kept_names:
+				kept_names.add(col._name)
+				key_name = col._name
+			else:
+				# ('' is a name like any other)
+				key_name = uniquify(col._name if col._name is not None else "key")
+			# (the key column itself, unchanged: same elements, same dtype)
+			result_cols.append(Vector(list(col), dtype=col._dtype, name=key_name))
 		
 		# ----------------------------------------------------------------------
 		# 6. Helper: compute group-level aggregation for one column
